@@ -105,15 +105,16 @@ func init() {
 			return nil, true
 		}
 		msg := st.goString(a[1], "vAssert message")
-		r, m := st.query(st.c.BNot(c))
-		switch r {
-		case Sat:
-			st.recordViolation("assertion failed: "+msg, "assert", m)
+		if c.IsFalse() {
+			st.flushAsserts()
+			st.recordViolation("assertion failed: "+msg, "assert", nil)
 			panic(pathAbort{abFail, msg})
-		case Unknown:
-			st.assertsU++
 		}
-		st.addPC(c)
+		st.pendA = append(st.pendA, c)
+		st.pendMsg = append(st.pendMsg, msg+" @ "+st.callerPos(th))
+		if len(st.pendA) >= 24 {
+			st.flushAsserts()
+		}
 		return nil, true
 	}
 	h["vReach"] = func(st *State, th *Thread, a []Value, _ ssa.Instruction) (Value, bool) {
@@ -157,7 +158,9 @@ func init() {
 		if on {
 			// everything allocated so far is shared
 			for _, o := range st.objs {
-				o.owner = -1
+				if o.owner != -1 {
+					st.wobj(o).owner = -1
+				}
 			}
 		}
 		return nil, true
@@ -185,7 +188,7 @@ func init() {
 		if p == 0 || id < 0 || id >= len(st.objs) || !st.objs[id].user || p != st.objs[id].base() {
 			st.fail(fmt.Sprintf("free of a pointer that was never allocated: %#x", p))
 		}
-		o := st.objs[id]
+		o := st.wobj(st.objs[id])
 		if o.freed {
 			st.fail(fmt.Sprintf("double free of block %s (obj %d, allocated at %s)", o.label, o.id, o.site))
 		}
